@@ -78,15 +78,15 @@ func startSTUN() (addr string, err error) {
 
 type relayFwd struct {
 	target atomic.Value // string: where relay connections are forwarded to
-	ln    net.Listener
-	mu    sync.Mutex
-	conns map[net.Conn]net.Conn
-	total int64
+	ln     net.Listener
+	mu     sync.Mutex
+	conns  map[net.Conn]net.Conn
+	total  int64
 	// blackhole: relay connections that silently stop forwarding in both directions and stay open
 	// (a network partition between proxy and bridge: no FIN, no RST; the proxy process stays alive
 	// and keeps answering ICE keep-alives - from the client's side the proxy has frozen)
 	holes    map[net.Conn]*int32
-	holeNext int32 // this many of the next accepted connections are blackholes from the start
+	holeNext int32        // this many of the next accepted connections are blackholes from the start
 	onAccept atomic.Value // func(): called once, synchronously, when the next relay connection arrives (before a byte is forwarded)
 }
 
@@ -263,8 +263,8 @@ type env struct {
 	frag      *wsFrag
 	brokerURL string // through the reverse proxy
 	broker    *exec.Cmd
-	loseNext  int32 // client poll responses to drop
-	delayNext int64 // ms to delay the next client poll response
+	loseNext  int32      // client poll responses to drop
+	delayNext int64      // ms to delay the next client poll response
 	pmu       sync.Mutex // guards proxies
 	proxies   []*exec.Cmd
 	started   int64
@@ -532,10 +532,26 @@ func (e *env) setRelayTarget(server string, frag bool) {
 
 func (e *env) startProxy() *exec.Cmd {
 	n := atomic.AddInt64(&e.started, 1)
-	cmd := exec.Command(filepath.Join(e.bin, "proxy"), "-broker", strings.TrimSuffix(e.brokerURLDirect(), ""), "-stun", "stun:"+e.stun,
-		"-relay", "ws://"+e.relay.ln.Addr().String()+"/", "-allowed-relay-hostname-pattern", "$", "-allow-non-tls-relay",
-		"-keep-local-addresses", "-verbose", "-log", filepath.Join(e.dir, fmt.Sprintf("proxy%d.log", n)))
-	cmd.Stderr, cmd.Stdout = io.Discard, io.Discard
+	args := []string{"-broker", strings.TrimSuffix(e.brokerURLDirect(), ""), "-stun", "stun:" + e.stun,
+		"-relay", "ws://" + e.relay.ln.Addr().String() + "/", "-allowed-relay-hostname-pattern", "$", "-allow-non-tls-relay",
+		"-keep-local-addresses"}
+	// the logging configurations an operator may use (none of them -unsafe-logging); whatever reaches
+	// the log file or stderr is scanned for surviving addresses after every case
+	switch n % 3 {
+	case 0:
+		args = append(args, "-log", filepath.Join(e.dir, fmt.Sprintf("proxy%d.log", n)))
+	case 1:
+		args = append(args, "-verbose", "-log", filepath.Join(e.dir, fmt.Sprintf("proxy%d.log", n)))
+	default:
+		args = append(args, "-verbose")
+	}
+	cmd := exec.Command(filepath.Join(e.bin, "proxy"), args...)
+	cmd.Stdout = io.Discard
+	if errf, err := os.Create(filepath.Join(e.dir, fmt.Sprintf("proxy%d.stderr.log", n))); err == nil {
+		cmd.Stderr = errf
+	} else {
+		cmd.Stderr = io.Discard
+	}
 	if os.Getenv("VERIF_SYS_RACE") == "1" {
 		cmd.Env = append(os.Environ(), "GORACE=halt_on_error=0 log_path="+filepath.Join(e.dir, fmt.Sprintf("race-proxy%d", n)))
 	}
@@ -587,10 +603,10 @@ func (e *env) killAllProxies() {
 // case
 
 type fault struct {
-	AtMs   int    `json:"at_ms"`  // after the stream was opened
-	Kind   string `json:"kind"`   // kill | term | freeze | cutrelay | resetrelay | blackhole | loseanswer | delayanswer | newproxy | freezeclient
-	Proxy  int    `json:"proxy"`  // index among live proxies (mod)
-	DurMs  int    `json:"dur_ms,omitempty"`
+	AtMs  int    `json:"at_ms"` // after the stream was opened
+	Kind  string `json:"kind"`  // kill | term | freeze | cutrelay | resetrelay | blackhole | loseanswer | delayanswer | newproxy | freezeclient
+	Proxy int    `json:"proxy"` // index among live proxies (mod)
+	DurMs int    `json:"dur_ms,omitempty"`
 }
 
 type sysCase struct {
@@ -675,6 +691,11 @@ func scanLogs(e *env) (lines, placeholders int, survivors []string) {
 				}
 				// a run glued to a letter or '_' on either side is part of a word, not a delimited address;
 				// so is one reached through a ':' (the statement excludes ':' as a delimiter)
+				// "...: " - a colon followed by whitespace (or the line end) closes an address, as in
+				// "dial tcp 127.0.0.1:9: connect: connection refused" (the scrubber's own right delimiter class)
+				if j-i > 1 && line[j-1] == ':' && (j == len(line) || line[j] == ' ' || line[j] == '\t') {
+					j--
+				}
 				glued := i > 0 && wordy(line[i-1]) || j < len(line) && wordy(line[j])
 				if !glued && addrToken(line[i:j]) {
 					l := line
